@@ -25,6 +25,10 @@ from autofit.graphical.expectation_propagation import EPHistory, EPOptimiser, Ab
 from autofit.graphical.expectation_propagation.optimiser import (
     SimplerUpdater, FactorUpdater, DynamicUpdater, ParallelEPOptimiser, factor_step)
 from autofit.graphical.utils import Status
+from autofit.graphical.expectation_propagation import visualise as _visualise
+
+# plotting the evidence / KL history (matplotlib, ~0.7 s per run) is irrelevant to the bookkeeping
+_visualise.Visualise.__call__ = lambda self: None
 from autofit.mapper.variable import Variable
 from autofit.messages.normal import NormalMessage
 
